@@ -32,7 +32,7 @@ theorem topoCheck_true {d : Nat} {s : Topo} {old : Option QI} {q : QI} {hp : Boo
 def addState (s : Topo) (q : QI) : Topo :=
   { info := q :: s.info
     hkeys := q.parent :: q.name :: s.hkeys
-    kids := (q.parent, q.name) :: s.kids.filter (fun e => e.1 != q.name)
+    kids := (q.parent, q.name) :: s.kids
     nsMap := nsSetAll s.nsMap q.ns q.name }
 
 theorem validAdd_true {d : Nat} {s : Topo} {q : QI} {sw : Bool} (h : (validAdd d s q sw).2 = true) :
